@@ -339,9 +339,51 @@ def c18():
     ]
 
 
+def c17():
+    return [
+        R("c17-hess-no-validation", "C17", JAC, "    idxs_list = _setup_idxs(idxs, params)\n\n    # make the function a functional (depends on all parameters in the object)\n    pfcn = get_pure_function(fcn)\n\n    res = []",
+          "    idxs_list = [idxs] if isinstance(idxs, int) else idxs\n\n    # make the function a functional (depends on all parameters in the object)\n    pfcn = get_pure_function(fcn)\n\n    res = []", "C17-V"),
+        R("c17-shape-swapped", "C17", JAC, "            shape=(nout, nin),", "            shape=(nin, nout),", "C17-S"),
+        R("c17-objparams-not-in-key", "C17", JAC, "        return [id(param) for param in self.params_tensor] == self.id_params_tensor and \\\n               [id(param) for param in self.objparams] == self.id_objparams_tensor",
+          "        return [id(param) for param in self.params_tensor] == self.id_params_tensor", "C17-K"),
+        R("c17-rmv-no-create-graph", "C17", JAC, "            one_dfdy, = torch.autograd.grad(yout, (yparam,), grad_outputs=gout1[i].reshape(self.outshape),\n                                            retain_graph=True, create_graph=torch.is_grad_enabled())",
+          "            one_dfdy, = torch.autograd.grad(yout, (yparam,), grad_outputs=gout1[i].reshape(self.outshape),\n                                            retain_graph=True)", "AC3"),
+        R("c17-hess-not-hermitian", "C17", JAC, "            hs = _Jac(gen_pfcn2(idx), params, idx, is_hermitian=True)", "            hs = _Jac(gen_pfcn2(idx), params, idx)", "C17-H"),
+        R("c17-hess-not-sibling", "C17", JAC, "        @make_sibling(pfcn)\n        def pfcn2(*params):", "        def pfcn2(*params):", "C17-H"),
+        R("c17-mv-no-connect-objparams", "C17", JAC, "        res = dfdyfs.reshape(*gy.shape[:-1], self.nout)  # (..., nout)\n        res = connect_graph(res, self.params_tensor)\n        res = connect_graph(res, self.objparams)", "        res = dfdyfs.reshape(*gy.shape[:-1], self.nout)  # (..., nout)\n        res = connect_graph(res, self.params_tensor)", "C17-G"),
+        R("c17-idx-into-tensor-list", "C17", JAC, "                self.__update_params()\n                yparam = self.params[self.idx]\n                yout = self.fcn(*self.params)  # (*nout)\n                v =", "                self.__update_params()\n                yparam = self.params_tensor[self.idx]\n                yout = self.fcn(*self.params)  # (*nout)\n                v =", "C17-X"),
+        R("c17-setup-idxs-accepts-nongrad", "C17", JAC, "        assert_type(isinstance(params[p], torch.Tensor) and params[p].requires_grad,", "        assert_type(isinstance(params[p], torch.Tensor),", "C17-V"),
+        R("c17-rmv-reshape-in", "C17", JAC, "        gout1 = gout.reshape(-1, self.nout)  # (nbatch, nout)", "        gout1 = gout.reshape(-1, self.nin)  # (nbatch, nout)", "C17-S"),
+        R("c17-reeval-outside-useobjparams", "C17", JAC, "            with torch.enable_grad(), self.fcn.useobjparams(self.objparams):\n                self.__update_params()\n                yparam = self.params[self.idx]\n                yout = self.fcn(*self.params)  # (*nout)\n\n        gout1",
+          "            with torch.enable_grad():\n                self.__update_params()\n                yparam = self.params[self.idx]\n                yout = self.fcn(*self.params)  # (*nout)\n\n        gout1", "C17-G"),
+    ]
+
+
+def c09():
+    return [
+        R("c09-equilibrium-undecorated", "C09", RF, "    @make_sibling(pfunc)\n    def new_fcn(y, *params):\n        return y - pfunc(y, *params)", "    def new_fcn(y, *params):\n        return y - pfunc(y, *params)", "C09-S"),
+        R("c09-ivp-sibling-of-nothing", "C09", IVP, "        @make_sibling(pfcn)\n        def pfcn2(t, ytensor, *params):", "        def pfcn2(t, ytensor, *params):", "C09-S"),
+        R("c09-quad-drop-objparams", "C09", QUAD, "        res = _Quadrature.apply(pfunc2, xl, xu, fwd_options, bck_options, nparams,\n                                dtype, device, *params, *pfunc.objparams())",
+          "        res = _Quadrature.apply(pfunc2, xl, xu, fwd_options, bck_options, nparams,\n                                dtype, device, *params)", "AC6"),
+        R("c09-minimize-count", "C09", RF, "    return _RootFinder.apply(_rf_fcn, y0, _fwd_fcn, alg_type, fwd_options, bck_options,\n                             len(params), *params, *pfunc.objparams())",
+          "    return _RootFinder.apply(_rf_fcn, y0, _fwd_fcn, alg_type, fwd_options, bck_options,\n                             len(params) - 1, *params, *pfunc.objparams())", "AC6"),
+        R("c09-mcquad-objparams-swapped", "C09", MCQ, "    fobjparams = pure_ffcn.objparams()\n    pobjparams = pure_logpfcn.objparams()", "    fobjparams = pure_logpfcn.objparams()\n    pobjparams = pure_ffcn.objparams()", "AC6"),
+        R("c09-forward-split-wrong", "C09", IVP, "        params = allparams[:nparams]\n        objparams = allparams[nparams:]\n\n        method = config.pop(\"method\")", "        params = allparams[:nparams]\n        objparams = allparams[nparams + 1:]\n\n        method = config.pop(\"method\")", "AC6"),
+        R("c09-pure-function-nn-first", "C09", PF, "        if isinstance(obj, EditableModule):\n            return EditableModulePureFunction(obj, fcn)\n        elif isinstance(obj, torch.nn.Module):\n            return TorchNNPureFunction(obj, fcn)\n        else:\n            raise RuntimeError(errmsg)",
+          "        if isinstance(obj, EditableModule):\n            return EditableModulePureFunction(obj, fcn)\n        elif isinstance(obj, torch.nn.Module):\n            return TorchNNPureFunction(obj, fcn)\n        else:\n            return FunctionPureFunction(fcn)", "C09-D",
+          note="methods of arbitrary objects silently accepted: their tensors are invisible to autograd"),
+        R("c09-identical-any", "C09", PF, "    for obj1, obj2 in zip(objs1, objs2):\n        if id(obj1) != id(obj2):\n            return False\n    return True", "    return not all(o1 is not o2 for o1, o2 in zip(objs1, objs2))", "C09-I"),
+        R("c09-identical-all-ok", "C09", PF, "    for obj1, obj2 in zip(objs1, objs2):\n        if id(obj1) != id(obj2):\n            return False\n    return True", "    return all(o1 is o2 for o1, o2 in zip(objs1, objs2))", None, expect="silent",
+          note="equivalent re-expression must stay silent"),
+        R("c09-multisibling-offset", "C09", PF, "            self.cumsum_idx[i + 1] = self.cumsum_idx[i] + len(objparams)", "            self.cumsum_idx[i + 1] = self.cumsum_idx[i] + len(res)", "C09-U"),
+        R("c09-restore-not-expanded", "C09", PF, "            allobjparams = self._uniq.map_unique_objs(old_objparams)\n            self._set_all_obj_params(allobjparams)", "            self._set_all_obj_params(old_objparams)", "C09-U"),
+        R("c09-make-sibling-single-for-many", "C09", PF, "        return lambda fcn: MultiSiblingPureFunction(pfuncs, fcntocall=fcn)", "        return lambda fcn: SingleSiblingPureFunction(pfuncs[0], fcntocall=fcn)", "C09-D"),
+    ]
+
+
 def all_mutants():
     ms = []
-    for f in (defects_back, c01, c02, c03, c04, c08, c13, c16, c10, c11, c19, c20, c18):
+    for f in (defects_back, c01, c02, c03, c04, c08, c13, c16, c10, c11, c19, c20, c18, c17, c09):
         ms += f()
     import importlib
     try:
